@@ -3,6 +3,7 @@ package main
 import (
 	"fmt"
 	"math/rand"
+	"os"
 	"strings"
 	"sync"
 	"sync/atomic"
@@ -380,9 +381,17 @@ func (e *c02Env) runScript(sc c02Script, rep int) (string, map[string]interface{
 }
 
 func c02(r *ev.Run) {
-	r.Rule("forced orderings: {pause point holding the request} x {backend connection reset / closed, host removed, hosts replaced, client closes} x {simple request, MGET child, ASK-redirected request}, each repeated (a losing outcome may be a coin flip); full-queue script (node stops reading until > 1024 requests are outstanding, then dies); random fault stress with probabilistic delays at the pause points; distinct = distinct (hook, fault, class) scripts that reached their pause point + stress fault kinds")
+	r.Rule("forced orderings: {pause point holding the request} x {backend connection reset / closed, host removed, hosts replaced, client closes} x {simple request, MGET child, ASK-redirected request}, each repeated (a losing outcome may be a coin flip); full-queue script (node stops reading until > 1024 requests are outstanding, then dies); redirections between two backends whose queues are full (a cycle, and a host removal while a redirection into a silent full backend is pending); random fault stress with probabilistic delays at the pause points; distinct = distinct (hook, fault, class) scripts that reached their pause point + stress fault kinds")
 	r.Assume("bounded-progress restatement of 'eventually': a request is lost if it is unanswered 3 s after the fault ended AND fresh canary requests through the same backends succeed AND two goroutine dumps 300 ms apart both show a session writer in rawRequest.Wait; anything else is inconclusive")
 	r.Assume("pause points are placed between critical sections / at channel operations only (utils/vhook), so every forced ordering is one the scheduler could produce")
+	switch os.Getenv("VERIF_C02_ONLY") { // debugging aid: the volume requirements then report the run inconclusive
+	case "redirect":
+		c02RedirectFullQueues(r)
+		return
+	case "filtered":
+		c02FilteredAfterPending(r)
+		return
+	}
 	e := &c02Env{r: r}
 	if err := e.start(false); err != nil {
 		r.Internal("start: %v", err)
@@ -464,11 +473,14 @@ func c02(r *ev.Run) {
 		}
 	}
 	r.Count("scripts_that_reached_their_pause_point", int64(nscripts))
-	r.Require("filtered_request_in_hand_when_backend_reset", 2)
 	r.Sample(map[string]interface{}{"script": c02Script{Hook: c02Hooks[2], Fault: "reset-conn", Class: "simple"}, "steps": "warm-up; node silent; arm park; send GET; wait parked; reset backend connection; wait until the node sees it closed; release; expect a reply within the progress-relative deadline"})
 	c02FullQueue(r, e)
 	e.stop()
 	c02FilteredAfterPending(r)
+	r.Require("filtered_request_in_hand_when_backend_reset", 2)
+	c02RedirectFullQueues(r)
+	r.Require("redirect_cycle_answered", 1)
+	r.Require("host_removed_while_redirecting", 1)
 	c02MultiKeyStorm(r)
 	runAPIPart(r, "children", false, nil, 10*time.Minute)
 	c02Stress(r)
@@ -807,6 +819,10 @@ func c02FilteredAfterPending(r *ev.Run) {
 					time.Sleep(5 * time.Millisecond)
 				}
 			}
+			if os.Getenv("VERIF_DEBUG") != "" {
+				st, _ := s.HookState("redis.client.write.after_dequeue")
+				fmt.Fprintf(os.Stderr, "again=%v before=%v now=%v\n", again, hitsBefore, st)
+			}
 			if again {
 				cl.Nodes[0].KillConns(true)
 				time.Sleep(40 * time.Millisecond)
@@ -982,4 +998,196 @@ func c02MultiKeyStorm(r *ev.Run) {
 	}
 	r.Cases(int(atomic.LoadInt64(&sent)/100), "stress/multi-key-storm")
 	r.Require("storm_multikey_replies", 10000)
+}
+
+// c02RedirectFullQueues: redirections are handled by the reader goroutine of the backend client that received the MOVED / ASK
+// reply. (1) Two nodes have more requests outstanding than a backend client's queues hold (1024 sent + 1 in the writer's hand +
+// 1024 pending) and each answers its first request with MOVED to the other (a consistent re-shard the proxy has not fetched yet):
+// everything must still be answered once the nodes answer. (2) A healthy node redirects one request to a node that is silent with
+// full queues; removing the healthy host must return.
+func c02RedirectFullQueues(r *ev.Run) {
+	for _, variant := range []string{"redirect-cycle-between-full-backends", "host-removed-while-redirecting-into-full-silent-backend"} {
+		s, err := startSUT(r, false, 600000, 20)
+		if err != nil {
+			r.Internal("start sut: %v", err)
+			return
+		}
+		cl, err := fakecluster.New(2, 0)
+		if err != nil {
+			r.Internal("fakecluster: %v", err)
+			s.Close()
+			return
+		}
+		cl.AssignContiguous()
+		cl.LogArgs = false
+		a, b := cl.Nodes[0], cl.Nodes[1]
+		gate := map[*fakecluster.Node]chan struct{}{a: make(chan struct{}), b: make(chan struct{})}
+		for _, n := range cl.Nodes {
+			n := n
+			n.Before = func(args [][]byte) {
+				switch strings.ToLower(string(args[0])) {
+				case "cluster", "readonly", "ping":
+					return
+				}
+				if len(args) > 1 && strings.HasPrefix(string(args[1]), "warm") {
+					return
+				}
+				<-gate[n] // the node takes the request and looks at it (and at everything behind it) only when the gate opens
+			}
+		}
+		svc, err := startRedisSvc(s, cl, cl.Addrs(), RedisOpts{ConnTimeout: 500 * time.Millisecond})
+		if err != nil || !svc.WaitRouting(1, 10*time.Second) {
+			r.Internal("service did not start: %v", err)
+			s.Close()
+			cl.Close()
+			return
+		}
+		finish := func() {
+			for _, g := range gate {
+				select {
+				case <-g:
+				default:
+					close(g)
+				}
+			}
+			s.Close()
+			cl.Close()
+		}
+		nkeys := 2300
+		ka, kb := keysFor(cl, a, nkeys, "rq"), keysFor(cl, b, nkeys, "rq")
+		// warm-up: both backend clients exist
+		if wc, err := svc.Dial(); err == nil {
+			wc.DoS(5*time.Second, "SET", keysFor(cl, a, 1, "warm")[0], "1")
+			wc.DoS(5*time.Second, "SET", keysFor(cl, b, 1, "warm")[0], "1")
+			wc.Close()
+		}
+		// one MGET per node with more children than the node's backend client can hold: the session parks in the send
+		type side struct {
+			conn *rclient.Conn
+			done chan error
+		}
+		send := func(keys []string) *side {
+			c, err := svc.Dial()
+			if err != nil {
+				return nil
+			}
+			sd := &side{conn: c, done: make(chan error, 1)}
+			go func() {
+				v, err := c.DoS(40*time.Second, append([]string{"MGET"}, keys...)...)
+				if err == nil && !(v.Kind == resp.Array && len(v.Arr) == len(keys)) {
+					err = fmt.Errorf("unexpected reply %s", truncStr(v.String(), 200))
+				}
+				sd.done <- err
+			}()
+			return sd
+		}
+		sa := send(ka)
+		var sb *side
+		if variant == "redirect-cycle-between-full-backends" {
+			sb = send(kb)
+		} else {
+			sb = send(kb) // fills B's queues; B never answers in this variant
+		}
+		if sa == nil || sb == nil {
+			r.Internal("dial failed")
+			finish()
+			return
+		}
+		// wait until both nodes hold 1024 unanswered requests (what the proxy has written) - progress relative
+		full := false
+		for i := 0; i < 400 && !full; i++ {
+			st, _ := s.Stats("service." + svc.Name + ".")
+			full = st["service."+svc.Name+".upstream.rq_total"] >= 2*2049 && cl.Received()-cl.Answered() >= 2
+			if !full {
+				time.Sleep(25 * time.Millisecond)
+			}
+		}
+		if !full {
+			r.Inconclusive("backend-queues-never-filled:" + variant)
+			finish()
+			continue
+		}
+		// the slot of each node's FIRST outstanding key now belongs to the other node, in every node's view; the proxy's table is stale
+		cl.Lock()
+		cl.SetOwnerLocked(fakecluster.Slot([]byte(ka[0])), b)
+		if variant == "redirect-cycle-between-full-backends" {
+			cl.SetOwnerLocked(fakecluster.Slot([]byte(kb[0])), a)
+		}
+		cl.Unlock()
+		w := map[string]interface{}{"variant": variant, "children_per_mget": nkeys}
+		switch variant {
+		case "redirect-cycle-between-full-backends":
+			close(gate[a])
+			close(gate[b])
+			var errA, errB error
+			gotA, gotB := false, false
+			deadline := time.After(20 * time.Second)
+			for !(gotA && gotB) {
+				select {
+				case errA = <-sa.done:
+					gotA = true
+				case errB = <-sb.done:
+					gotB = true
+				case <-deadline:
+					goto judged
+				}
+			}
+		judged:
+			if sutDied(r, s, variant) {
+				finish()
+				return
+			}
+			if !(gotA && gotB) {
+				// progress relative: both nodes have answered everything they received, nothing is in flight towards them
+				idle := cl.Received() == cl.Answered()
+				g, _ := s.Goroutines()
+				w["answered_mget_a"], w["answered_mget_b"] = gotA, gotB
+				w["nodes_idle"] = idle
+				w["backend_readers"] = truncStr(extractStacks(g, "redis.(*client).loopRead", 4), 6000)
+				w["senders"] = truncStr(extractStacks(g, "redis.(*client).Send", 6), 9000)
+				if os.Getenv("VERIF_DEBUG") != "" {
+					fmt.Fprintf(os.Stderr, "ALL:\n%s\n", g)
+				}
+				if idle && strings.Contains(g, "redis.(*client).Send") {
+					r.Violation("C02:lost:"+variant, "both nodes answered every request they received, yet the two multi-key requests are not answered 20 s later: the backend readers wait in each other's send", w)
+				} else {
+					r.Inconclusive("redirect-cycle-unanswered-but-not-stuck")
+				}
+			} else if errA != nil || errB != nil {
+				w["error_a"], w["error_b"] = fmt.Sprint(errA), fmt.Sprint(errB)
+				r.Violation("C02:wrong-reply:"+variant, "a multi-key request got an unexpected reply", w)
+			} else {
+				r.Count("redirect_cycle_answered", 1)
+			}
+		default:
+			close(gate[a]) // A answers everything, its first reply redirects to the silent, full B
+			time.Sleep(300 * time.Millisecond)
+			if os.Getenv("VERIF_DEBUG") != "" {
+				g, _ := s.Goroutines()
+				fmt.Fprintf(os.Stderr, "BEFORE host_remove:\n%s\n", extractStacks(g, "redis.(*client)", 12))
+			}
+			done := make(chan error, 1)
+			go func() { done <- s.HostOp("host_remove", svc.Name, hostsOf([]string{a.Addr})) }()
+			select {
+			case err := <-done:
+				r.Count("host_removed_while_redirecting", 1)
+				if os.Getenv("VERIF_DEBUG") != "" {
+					g, _ := s.Goroutines()
+					fmt.Fprintf(os.Stderr, "host_remove returned: %v\n%s\n", err, extractStacks(g, "redis.(*client)", 12))
+				}
+			case <-time.After(8 * time.Second):
+				g, _ := s.Goroutines()
+				w["stuck"] = truncStr(extractStacks(g, "redis.(*client).Stop", 2)+"\n\n"+extractStacks(g, "redis.(*client).Send", 2), 6000)
+				if strings.Contains(g, "redis.(*client).Stop") && strings.Contains(g, "redis.(*client).Send") {
+					r.Violation("C02:host-removal-hangs:"+variant, "removing a healthy host did not return within 8 s: its backend reader is parked in the send to another backend whose queues are full", w)
+				} else {
+					r.Inconclusive("host-remove-slow-but-not-stuck")
+				}
+			}
+		}
+		r.Case("script/" + variant)
+		sa.conn.Close()
+		sb.conn.Close()
+		finish()
+	}
 }
